@@ -7,6 +7,7 @@ import (
 	"sync"
 
 	"cuelang.org/go/cue"
+	"cuelang.org/go/cue/ast"
 	"cuelang.org/go/cue/cuecontext"
 	"github.com/google/uuid"
 )
@@ -145,7 +146,7 @@ func strInStrSlice(s string, ss []string) (isInSlice bool) {
 }
 
 func getSelectorForField(inputValue cue.Value, name string) (selector cue.Selector) {
-	if !(strings.HasPrefix(name, "_") && !strings.Contains(name, "-")) {
+	if !(strings.HasPrefix(name, "_") && !strings.Contains(name, "-") && ast.IsValidIdent(name)) {
 		return cue.Str(name)
 	}
 
